@@ -94,7 +94,7 @@ def cfg_const(cfg_text, name, default=None):
     return int(m.group(1)) if m else default
 
 
-def mc_job(name, module, cfgs, props, export=True, strict=True, cap_q=None, cap_t=20000, workers=12, timeout_q=300, timeout_t=3000):
+def mc_job(name, module, cfgs, props, export=True, strict=True, cap_q=None, cap_t=20000, workers=8, timeout_q=300, timeout_t=3000):
     """Model-check MC configs (quick: cfgs['quick'], thorough: cfgs['thorough']) and export the paths as schedules."""
     if cap_q is None:
         cap_q = 1800 if module == "MC_Netcode" else 700
@@ -219,36 +219,12 @@ def run_check(pid, tier, replay=None):
             if chunk:
                 batches.append((name, chunk))
 
-    # model checking of the focused configurations; their state graphs are exported as schedules
+    # The generated batches start at once on the pool; meanwhile the focused configurations are model-checked (TLC), their state
+    # graphs exported as schedules, and each exported batch joins the pool as soon as it exists.
+    from concurrent.futures import ThreadPoolExecutor
     mc_results = []
     violations = []
-    if not replay:
-        for job in plan.mc:
-            for res in job(tier, wd, rng):
-                mc_results.append(res)
-                if res.get("violated"):
-                    rp = os.path.join(wd, "replays", "mc-%s.txt" % res["name"].replace(":", "-").replace("/", "-"))
-                    with open(rp, "w") as f:
-                        f.write(res.get("text", ""))
-                    res.pop("text", None)
-                    violations.append({"where": "model", "name": res["name"], "invariant": res["violated"], "replay": rp})
-                scheds = res.pop("schedules", [])
-                chunk, size = [], 0
-                for s in scheds:
-                    chunk.append(s)
-                    size += len(s["steps"]) + 60
-                    if size > 6000:
-                        batches.append(("model:" + res["name"], chunk))
-                        chunk, size = [], 0
-                if chunk:
-                    batches.append(("model:" + res["name"], chunk))
-
-    # machine-checked proofs that belong to the property (thorough tier): an unproved obligation is a tool failure, not a verdict
     proofs = []
-    if not replay and tier != "quick":
-        for mod in PROOFS.get(pid, []):
-            proofs.append(C.tlaps_proof(mod, wd))
-
     total_events = total_runs = total_states = 0
     hashes, nontriv = set(), set()
     samples = []
@@ -257,12 +233,51 @@ def run_check(pid, tier, replay=None):
     seen_keys, reported_keys, more_violations = {}, set(), 0
     strict_tot = {"runs": 0, "accepted": 0, "matched_events": 0, "drift_runs": 0, "errors": 0}
     drift_samples = []
-    from concurrent.futures import ThreadPoolExecutor
+
+    def wm(name):
+        parts = name.split("@")
+        return (parts[1], parts[2]) if len(parts) == 3 else (None, None)
+
     with ThreadPoolExecutor(max_workers=PAR) as ex:
-        def wm(name):
-            parts = name.split("@")
-            return (parts[1], parts[2]) if len(parts) == 3 else (None, None)
-        futs = [ex.submit(run_batch, plan, pid, name.split("@")[0], scheds, wd, bi, wm(name)[0], wm(name)[1]) for bi, (name, scheds) in enumerate(batches)]
+        futs = []
+
+        def submit(bi):
+            name, scheds = batches[bi]
+            futs.append(ex.submit(run_batch, plan, pid, name.split("@")[0], scheds, wd, bi, wm(name)[0], wm(name)[1]))
+
+        for bi in range(len(batches)):
+            submit(bi)
+        if not replay:
+            # the model-checking jobs of a plan run side by side (each with its own generator for the sampling of exported paths)
+            def run_job(ji):
+                return plan.mc[ji](tier, wd, random.Random(C.seed() * 104729 + ji * 31 + sum(map(ord, pid))))
+            with ThreadPoolExecutor(max_workers=3) as mex:
+                job_futs = [mex.submit(run_job, ji) for ji in range(len(plan.mc))]
+                for jf in job_futs:
+                    for res in jf.result():
+                        mc_results.append(res)
+                        if res.get("violated"):
+                            rp = os.path.join(wd, "replays", "mc-%s.txt" % res["name"].replace(":", "-").replace("/", "-"))
+                            with open(rp, "w") as f:
+                                f.write(res.get("text", ""))
+                            res.pop("text", None)
+                            violations.append({"where": "model", "name": res["name"], "invariant": res["violated"], "replay": rp})
+                        scheds = res.pop("schedules", [])
+                        chunk, size = [], 0
+                        for s in scheds:
+                            chunk.append(s)
+                            size += len(s["steps"]) + 60
+                            if size > 6000:
+                                batches.append(("model:" + res["name"], chunk))
+                                submit(len(batches) - 1)
+                                chunk, size = [], 0
+                        if chunk:
+                            batches.append(("model:" + res["name"], chunk))
+                            submit(len(batches) - 1)
+            # machine-checked proofs that belong to the property (thorough tier): an unproved obligation is a tool failure, not a verdict
+            if tier != "quick":
+                for mod in PROOFS.get(pid, []):
+                    proofs.append(C.tlaps_proof(mod, wd))
         results = [f.result() for f in futs]
     for (name, scheds), res in zip(batches, results):
         total_events += res["harness"].get("events", 0)
@@ -668,13 +683,16 @@ PLANS = {
                 level="model_checking", assumptions=NC_ASSUME),
     "C05": Plan("nc", "TraceNetcodeMon", ["C05"], [("handshake_histories", g_nc_handshake), ("token_table", g_nc_tokentable),
                                                        ("token_table_under", g_nc_tokentable_under)],
-                mc=[mc_job("nc_cross", "MC_Netcode", {"quick": ["MC_NC_q1.cfg"], "thorough": ["MC_NC_q1.cfg", "MC_NC_q2.cfg", "MC_NC_q3.cfg", "MC_NC_bad.cfg"]}, ["C05"], strict=False)],
+                mc=[mc_job("nc_cross", "MC_Netcode", {"quick": ["MC_NC_q1.cfg", "MC_NC_q5.cfg"],
+                                                             "thorough": ["MC_NC_q1.cfg", "MC_NC_q2.cfg", "MC_NC_q3.cfg", "MC_NC_bad.cfg", "MC_NC_q5.cfg", "MC_NC_t5.cfg", "MC_NC_q6.cfg"]}, ["C05"], strict=False)],
                 level="model_checking", assumptions=NC_ASSUME),
     "C07": Plan("nc", "TraceNetcodeMon", ["C07"], [("shapes", g_nc_shapes), ("bits", g_nc_bits), ("handshake_histories", g_nc_handshake)],
                 mc=[mc_job("nc_cross", "MC_Netcode", {"quick": ["MC_NC_q3.cfg"], "thorough": ["MC_NC_q1.cfg", "MC_NC_q3.cfg"]}, ["C07"], strict=False)],
                 level="model_checking", assumptions=NC_ASSUME),
     "C10": Plan("nc", "TraceNetcodeMon", ["C10"], [("handshake_histories", g_nc_handshake), ("payload_histories", g_nc_payload)],
-                mc=[mc_job("nc_table", "MC_Netcode", {"quick": ["MC_NC_q2.cfg"], "thorough": ["MC_NC_q1.cfg", "MC_NC_q2.cfg", "MC_NC_q3.cfg", "MC_NC_limit.cfg"]}, ["C10"], strict=False)],
+                mc=[mc_job("nc_table", "MC_Netcode", {"quick": ["MC_NC_q2.cfg", "MC_NC_q6.cfg"],
+                                                             "thorough": ["MC_NC_q1.cfg", "MC_NC_q2.cfg", "MC_NC_q3.cfg", "MC_NC_q5.cfg", "MC_NC_q6.cfg"]}, ["C10"], strict=False, cap_q=1000),
+                    mc_job("nc_limit", "MC_Netcode", {"quick": ["MC_NC_limit.cfg"], "thorough": ["MC_NC_limit.cfg"]}, ["C10"], strict=False, cap_q=400)],
                 level="model_checking", assumptions=NC_ASSUME),
     "C16": Plan("msg", "TraceRenetMon", ["C16"],
                 [("wire_renet", g_wire_renet, "msg", "TraceRenetMon"), ("wire_netcode", g_wire_netcode, "nc", "TraceNetcodeMon"),
